@@ -10,9 +10,20 @@ use serde_json::{json, Value};
 use std::sync::{mpsc, Arc, RwLock};
 
 const INPUTS: [&[u8]; 2] = [b"HELLO WORLD 123", b"3141592653"];
+/// "rejected" mapping: builder 1 is REJECTED under half of the option values (forced Numeric cannot carry it: the crate panics, the
+/// specification makes no claim about that build; forced version 1 is too small: documented error), builder 2 always builds.
+/// Rejected requests are part of a history like any other build: what follows them on the same thread is judged as usual.
+const INPUTS_REJ: [&[u8]; 2] = [b"HELLO WORLD 123 $%*+-./:", b"3141592653"];
 
-fn concrete(o: &str, v: u64) -> (usize, i64) {
+fn concrete(o: &str, v: u64, rejected: bool) -> (usize, i64) {
     // (register index: 0 ecl 1 mode 2 version 3 mask, concrete value)
+    if rejected {
+        match o {
+            "mode" => return (1, if v == 1 { 0 } else { 1 }),
+            "version" => return (2, if v == 1 { 1 } else { 4 }),
+            _ => {}
+        }
+    }
     match o {
         "ecl" => (0, if v == 1 { 0 } else { 3 }),
         "mode" => (1, if v == 1 { 1 } else { 2 }),
@@ -61,10 +72,11 @@ impl Workers {
 }
 
 /// One exported history on two builders; builds run on the worker threads, overlapping exactly as the history says.
-fn run_history(sink: &mut Sink, workers: &Workers, grp: u64, hist: &[Value]) {
-    let builders: Vec<Arc<RwLock<QRBuilder>>> = INPUTS.iter().map(|i| Arc::new(RwLock::new(QRBuilder::new(i.to_vec())))).collect();
+fn run_history(sink: &mut Sink, workers: &Workers, grp: u64, hist: &[Value], rejected: bool) {
+    let inputs = if rejected { INPUTS_REJ } else { INPUTS };
+    let builders: Vec<Arc<RwLock<QRBuilder>>> = inputs.iter().map(|i| Arc::new(RwLock::new(QRBuilder::new(i.to_vec())))).collect();
     let mut seq = 0u64;
-    for (i, inp) in INPUTS.iter().enumerate() {
+    for (i, inp) in inputs.iter().enumerate() {
         let id = sink.id(); seq += 1;
         sink.emit(&json!({"ev": "HNew", "id": id, "grp": grp, "tid": 0, "seq": seq, "bid": i + 1, "tag": "hnew", "input": inp.to_vec()}));
     }
@@ -73,7 +85,7 @@ fn run_history(sink: &mut Sink, workers: &Workers, grp: u64, hist: &[Value]) {
         let (op, t, b) = (step["op"].as_str().unwrap_or(""), step["t"].as_u64().unwrap_or(1), step["b"].as_u64().unwrap_or(1));
         match op {
             "set" => {
-                let (reg, val) = concrete(step["o"].as_str().unwrap_or(""), step["v"].as_u64().unwrap_or(1));
+                let (reg, val) = concrete(step["o"].as_str().unwrap_or(""), step["v"].as_u64().unwrap_or(1), rejected);
                 apply_set(&mut builders[b as usize - 1].write().unwrap(), reg, val);
                 let id = sink.id(); seq += 1;
                 let mut ev = set_event(grp, 0, seq, b, reg, val); ev["id"] = json!(id);
@@ -98,12 +110,12 @@ fn run_history(sink: &mut Sink, workers: &Workers, grp: u64, hist: &[Value]) {
     }
 }
 
-pub fn histories(sink: &mut Sink, behaviours: &str, grp0: u64) {
+pub fn histories(sink: &mut Sink, behaviours: &str, grp0: u64, rejected: bool) {
     let mut grp = grp0;
     let workers = Workers::new(2);
     for l in std::fs::read_to_string(behaviours).unwrap_or_default().lines() {
         let Ok(b) = serde_json::from_str::<Value>(l) else { continue };
-        if let Some(h) = b["hist"].as_array() { grp += 1; run_history(sink, &workers, grp, h); }
+        if let Some(h) = b["hist"].as_array() { grp += 1; run_history(sink, &workers, grp, h, rejected); }
     }
 }
 
@@ -192,6 +204,58 @@ pub fn threads(sink: &mut Sink, seed: u64, thorough: bool, grp0: u64) {
         for h in handles { per_thread.push(h.join().unwrap_or_else(|_| vec![json!({"ev": "HBuild", "tid": 99, "seq": 1, "bid": 1000, "tag": "hbuild:thread-panicked", "lite": 0, "out": {"kind": "Panic", "why": "thread panicked"}})])); }
         for mut e in events { e["id"] = json!(sink.id()); sink.emit(&e); }
         for evs in per_thread { for mut e in evs { e["id"] = json!(sink.id()); e["grp"] = json!(grp); sink.emit(&e); } }
+    }
+}
+
+/// Aftermath: a request, then a REJECTED or failing or very different request, then the first request again, all on the one
+/// long-lived executor thread.  Rejected = the forced mode cannot carry the input (the crate panics; the specification makes no
+/// claim about that build, BuildUnspecified) - but the builds AFTER it are ordinary builds and are judged like any other.
+pub fn aftermath(sink: &mut Sink, seed: u64, thorough: bool, grp0: u64) {
+    let mut r = rng(seed, 77);
+    let rounds = if thorough { 720 } else { 96 };
+    let mut grp = grp0;
+    for i in 0..rounds {
+        grp += 1;
+        let mut seq = 0u64;
+        // the request under observation
+        let gm = i % 3;
+        let glen = [1usize, 2, 7, 11, 25, 60, 150][i % 7];
+        let ginput = payload(&mut r, gm, glen, gm > 0);
+        let mut good = QRBuilder::new(ginput.clone());
+        let mut gsets: Vec<(usize, i64)> = Vec::new();
+        if i % 2 == 0 { gsets.push((1, gm as i64)); }
+        if i % 4 < 2 { gsets.push((0, (i % 4) as i64)); }
+        if i % 5 == 0 { gsets.push((3, (i % 8) as i64)); }
+        for &(reg, val) in &gsets { apply_set(&mut good, reg, val); }
+        // the disturbance
+        let kind = i % 8;
+        let (dinput, dsets): (Vec<u8>, Vec<(usize, i64)>) = match kind {
+            0 => { let mut d = payload(&mut r, 0, 1 + i % 40, false); let at = r.gen_range(0..d.len()); d[at] = b'x'; (d, vec![(1, 0)]) }           // digit string with one letter, forced Numeric
+            1 => { let mut d = payload(&mut r, 1, 2 + i % 50, false); let at = r.gen_range(0..d.len()); d[at] = b'q'; (d, vec![(1, 1)]) }           // lower-case letter, forced Alphanumeric
+            2 => (payload(&mut r, 2, 8000, false), vec![]),                                                                                   // beyond any capacity: EncodedData
+            3 => (payload(&mut r, 2, 100, false), vec![(2, 1)]),                                                                              // forced version too small: SpecifiedVersion
+            4 => { let mut d = payload(&mut r, 0, 3000, false); d.push(b'/'); (d, vec![(1, 0), (0, 0)]) }                                     // rejected at the very end of a long request
+            5 => { let mut d = payload(&mut r, 1, 900, false); d[0] = 0xC3; (d, vec![(1, 1), (2, 40)]) }                                      // rejected at the very start, largest version forced
+            6 => (payload(&mut r, 2, 2900, false), vec![(0, 0)]),                                                                             // a valid build of the largest version
+            _ => (vec![b'7'; 1 + i % 9], vec![(1, 0), (2, 40), (0, 3)]),                                                                      // a valid build with the longest padding there is
+        };
+        let mut bad = QRBuilder::new(dinput.clone());
+        for &(reg, val) in &dsets { apply_set(&mut bad, reg, val); }
+        let (good, bad) = (Arc::new(good), Arc::new(bad));
+        let mut emit = |sink: &mut Sink, seq: &mut u64, mut ev: Value| { *seq += 1; ev["seq"] = json!(*seq); ev["grp"] = json!(grp); ev["tid"] = json!(1); ev["id"] = json!(sink.id()); sink.emit(&ev); };
+        emit(sink, &mut seq, json!({"ev": "HNew", "bid": 1, "tag": "hnew", "input": ginput}));
+        for &(reg, val) in &gsets { emit(sink, &mut seq, set_event(grp, 1, 0, 1, reg, val)); }
+        emit(sink, &mut seq, json!({"ev": "HNew", "bid": 2, "tag": "hnew", "input": dinput}));
+        for &(reg, val) in &dsets { emit(sink, &mut seq, set_event(grp, 1, 0, 2, reg, val)); }
+        let run = |b: &Arc<QRBuilder>| { let b = b.clone(); guarded(120, move || build_out(&b)).unwrap_or_else(|k| json!({"kind": k.split(':').next().unwrap_or("Panic"), "why": k})) };
+        let plan: &[usize] = if i % 3 == 0 { &[1, 2, 1] } else if i % 3 == 1 { &[2, 1, 2, 2, 1] } else { &[1, 2, 2, 1, 1] };
+        for &who in plan {
+            let out = run(if who == 1 { &good } else { &bad });
+            // the disturbing build itself is recorded without its matrix (judged for its outcome only); the observed request in full
+            let lite = if who == 2 { 1 } else { 0 };
+            let out = if lite == 1 && out["kind"] == "Ok" { let mut o = out; o["vals"] = json!([]); o["types"] = json!([]); o } else { out };
+            emit(sink, &mut seq, json!({"ev": "HBuild", "bid": who, "tag": format!("aftermath:{kind}"), "lite": lite, "out": out}));
+        }
     }
 }
 
